@@ -176,14 +176,21 @@ type loop struct {
 	stop func()
 }
 
-func newLoop() *loop {
+// loopBuf: the sysex buffer size a case's loopback listens with (0 = default). A channel or
+// system-common message must arrive whatever that size is.
+func loopBuf(c Case) uint32 { return []uint32{0, 1, 2}[c.Prev%3] }
+
+func newLoop(bufSize uint32) *loop {
 	l := &loop{}
 	drv := testdrv.New("c07")
 	ins, _ := drv.Ins()
 	outs, _ := drv.Outs()
 	var err error
-	l.stop, err = midi.ListenTo(ins[0], func(m midi.Message, ts int32) { l.got = append(l.got, append([]byte{}, m...)) },
-		midi.UseSysEx(), midi.UseTimeCode(), midi.UseActiveSense())
+	opts := []midi.Option{midi.UseSysEx(), midi.UseTimeCode(), midi.UseActiveSense()}
+	if bufSize > 0 {
+		opts = append(opts, midi.SysExBufferSize(bufSize))
+	}
+	l.stop, err = midi.ListenTo(ins[0], func(m midi.Message, ts int32) { l.got = append(l.got, append([]byte{}, m...)) }, opts...)
 	if err != nil {
 		panic(err)
 	}
@@ -310,12 +317,12 @@ var predecessors = []midi.Message{
 }
 
 var ctors = ev.NewCheck("C07", "constructors",
-	"exhaustive: NoteOn/NoteOff/NoteOffVelocity/PolyAfterTouch/ControlChange over 16x128x128, ProgramChange/AfterTouch 16x128, Pitchbend 16 x all 65536 int16 values, SPP all 65536, SongSelect and MTC all 256, Tune; plus out-of-range grid channel {16,17,127,128,255} x data {128,129,200,254,255} x in-range partners {0,1,64,127}; oracle = independent MIDI 1.0 wire table (status nibble|channel, clamped 7-bit data, 14-bit LSB first), no data byte > 127 for any argument, matching accessor returns the (clamped) arguments, every other type-specific accessor of midi.Message and smf.Message (incl. all meta accessors) rejects, derived views by definition, every accessor also with each subset of nil out-parameters (the API fills only non-nil arguments), and loopback through testdrv, directly behind a predecessor message of a rotating constructor kind on the same connection, delivers the same bytes (quick: every 16th tuple, thorough: all); non-trivial = some data argument != 0; tuples are distinct by construction",
+	"exhaustive: NoteOn/NoteOff/NoteOffVelocity/PolyAfterTouch/ControlChange over 16x128x128, ProgramChange/AfterTouch 16x128, Pitchbend 16 x all 65536 int16 values, SPP all 65536, SongSelect and MTC all 256, Tune; plus out-of-range grid channel {16,17,127,128,255} x data {128,129,200,254,255} x in-range partners {0,1,64,127}; oracle = independent MIDI 1.0 wire table (status nibble|channel, clamped 7-bit data, 14-bit LSB first), no data byte > 127 for any argument, matching accessor returns the (clamped) arguments, every other type-specific accessor of midi.Message and smf.Message (incl. all meta accessors) rejects, derived views by definition, every accessor also with each subset of nil out-parameters (the API fills only non-nil arguments), and loopback through testdrv, directly behind a predecessor message of a rotating constructor kind on the same connection, listening with the default sysex buffer or with one of 1 or 2 bytes, delivers the same bytes (quick: every 16th tuple, thorough: all); non-trivial = some data argument != 0; tuples are distinct by construction",
 	nil, func(c Case) (res ev.Result) {
 		res.Nontrivial = true
 		var lp *loop
 		if c.Loopback {
-			lp = newLoop()
+			lp = newLoop(loopBuf(c))
 			defer lp.stop()
 		}
 		res.Violation = check(c, lp)
@@ -324,8 +331,11 @@ var ctors = ev.NewCheck("C07", "constructors",
 
 func TestEnumConstructors(t *testing.T) {
 	ctors.R.Exhaustive = true
-	lp := newLoop()
-	defer lp.stop()
+	var loops [3]*loop
+	for i := range loops {
+		loops[i] = newLoop([]uint32{0, 1, 2}[i])
+		defer loops[i].stop()
+	}
 	var n, nt, idx int64
 	shard, shards := int64(ev.Shard()), int64(ev.Shards())
 	stride := int64(ev.N(16, 1))
@@ -344,7 +354,7 @@ func TestEnumConstructors(t *testing.T) {
 		if c.B != 0 || c.C != 0 || (c.A != 0 && c.Ctor[0] != 'N') {
 			nt++
 		}
-		if s := check(c, lp); s != "" {
+		if s := check(c, loops[c.Prev%3]); s != "" {
 			failed = true
 			ctors.R.AddEnum(n, nt, "")
 			ctors.R.Fail(t, c, "%s", s)
